@@ -52,6 +52,7 @@ type OpsCase struct {
 	DB      []KV    `json:"db"`
 	Ops     []*Op   `json:"ops"`
 	Commit  *Commit `json:"commit"`
+	Dry     bool    `json:"dry"`            // input: precede every Commit by a dry-run Commit into a batch that is never written
 	Ops2    []*Op   `json:"ops2,omitempty"` // kind "ops2": continued use of the same Database objects after Commit
 	Commit2 *Commit `json:"commit2,omitempty"`
 	Panic   string  `json:"panic,omitempty"`
@@ -411,7 +412,7 @@ func diffString(df *diffdb.Diff) string {
 }
 
 // doCommit: Commit -> Write -> dump; with revert also RevertDiff (through the diff codec, as consensus/execute.go) -> Write -> dump.
-func doCommit(d *db.DB, root *diffdb.Database, revert bool) (cm *Commit, site string) {
+func doCommit(d *db.DB, root *diffdb.Database, revert, dry bool) (cm *Commit, site string) {
 	defer func() {
 		if e := recover(); e != nil {
 			site = fmt.Sprintf("commit:%v", e)
@@ -420,10 +421,13 @@ func doCommit(d *db.DB, root *diffdb.Database, revert bool) (cm *Commit, site st
 	cm = &Commit{Added: []string{}, Updated: []KV{}, Deleted: []KV{}}
 	// a dry-run Commit into a batch that is never written (framework ABIHandler.Commit with DryRun) must leave the staged
 	// state untouched: the real Commit right after returns the same diff
-	dry := root.Commit(d.NewBatch())
+	var dryDiff *diffdb.Diff
+	if dry { // only in half of the cases, so that the plain single-Commit path stays covered as well
+		dryDiff = root.Commit(d.NewBatch())
+	}
 	batch := d.NewBatch()
 	diff := root.Commit(batch)
-	cm.DryOK = diffString(dry) == diffString(diff)
+	cm.DryOK = dryDiff == nil || diffString(dryDiff) == diffString(diff)
 	d.Write(batch)
 	cm.After = dump(d)
 	for _, k := range diff.Added {
@@ -473,13 +477,13 @@ func runOps(c *OpsCase) {
 	if c.Panic = execOps(c.Ops, &views); c.Panic != "" {
 		return
 	}
-	if c.Commit, c.Panic = doCommit(d, root, c.K != "ops2"); c.Panic != "" || c.K != "ops2" {
+	if c.Commit, c.Panic = doCommit(d, root, c.K != "ops2", c.Dry); c.Panic != "" || c.K != "ops2" {
 		return
 	}
 	if c.Panic = execOps(c.Ops2, &views); c.Panic != "" {
 		return
 	}
-	c.Commit2, c.Panic = doCommit(d, root, true)
+	c.Commit2, c.Panic = doCommit(d, root, true, c.Dry)
 }
 
 // TwoCase: two independent diffdb.Database roots (own caches) over ONE store, used interleaved; nothing reaches the store
@@ -489,6 +493,7 @@ type TwoCase struct {
 	Roots   [2]string `json:"roots"`
 	DB      []KV      `json:"db"`
 	Ops     []*Op     `json:"ops"`
+	Dry     bool      `json:"dry"`
 	Commits []*Commit `json:"commits"`
 	Panic   string    `json:"panic,omitempty"`
 	Close   string    `json:"close,omitempty"`
@@ -515,7 +520,7 @@ func runTwo(c *TwoCase) {
 		}
 	}
 	for i := 0; i < 2; i++ {
-		cm, site := doCommit(d, roots[i], false)
+		cm, site := doCommit(d, roots[i], false, c.Dry)
 		c.Commits = append(c.Commits, cm)
 		if site != "" {
 			c.Panic = site
@@ -661,7 +666,7 @@ func main() {
 			setLongPool(r)
 		}
 		st := &genState{}
-		c := &OpsCase{K: "ops", Root: hx2(root), DB: genDB(r, root), Ops: genOps(r, 3+r.Intn(*maxLen), st)}
+		c := &OpsCase{K: "ops", Root: hx2(root), DB: genDB(r, root), Ops: genOps(r, 3+r.Intn(*maxLen), st), Dry: r.Bool()}
 		if r.Intn(6) == 0 { // the same Database objects keep being used after Commit
 			// restoring, after a Commit, a snapshot taken before it is meaningless (the snapshot does not know what reached
 			// the store): phase 2 only restores snapshots taken in phase 2
@@ -675,7 +680,11 @@ func main() {
 	for i := 0; i < *nTwo; i++ {
 		// two roots over one store: mostly disjoint key spaces, sometimes equal or nested prefixes
 		pr := [][2][]byte{{{0x0a}, {0x0b}}, {{0x61}, {0xff}}, {{0x0a, 0x61}, {0x0a, 0xff}}, {{0x0a}, {0x0a}}, {{0x0a}, {0x0a, 0x61}}, {{}, {0x61}}}[r.Intn(6)]
-		c := &TwoCase{K: "two", Roots: [2]string{hx2(pr[0]), hx2(pr[1])}, DB: []KV{}}
+		c := &TwoCase{K: "two", Roots: [2]string{hx2(pr[0]), hx2(pr[1])}, DB: []KV{}, Dry: r.Bool()}
+		longPool = nil
+		if r.Intn(8) == 0 {
+			setLongPool(r)
+		}
 		m := map[string]KV{}
 		for _, kv := range append(genDB(r, pr[0]), genDB(r, pr[1])...) {
 			m[kv[0]] = kv
@@ -696,6 +705,10 @@ func main() {
 		o.Put(c)
 	}
 	for i := 0; i < *nBdb; i++ {
+		longPool = nil
+		if r.Intn(8) == 0 {
+			setLongPool(r)
+		}
 		root := roots[r.Intn(len(roots))]
 		c := &BdbCase{K: "bdb", Root: hx2(root), DB: genDB(r, root)}
 		n := 2 + r.Intn(10)
@@ -715,6 +728,10 @@ func main() {
 		o.Put(c)
 	}
 	for i := 0; i < *nScan; i++ {
+		longPool = nil
+		if r.Intn(8) == 0 {
+			setLongPool(r)
+		}
 		c := &ScanCase{K: "scan", DB: genDB(r, rkey(r, 1)), Kind: r.Intn(3), Src: []string{"db", "reader"}[r.Intn(2)],
 			A: hx2(rkey(r, 3)), B: hx2(rkey(r, 3)), L: rlimit(r), R: r.Bool()}
 		if c.Kind == 0 && r.Intn(4) == 0 {
